@@ -68,7 +68,7 @@ func init() {
 		Assumptions: []string{"strings that contain a dotted quad but are not exactly a.b.c.d[:port] in canonical decimal are don't-care (the statement is silent about them)"},
 		Plan:        func(tier string) []Batch { return same(n(tier, 16, 32), Batch{Timeout: 30 * time.Minute, Procs: 1}) }}
 	specs["C16"] = &Spec{ID: "C16", Level: "exploration", Parallel: 8,
-		Assumptions: []string{hookAssumption, "DateTime.Before is judged for instants from 1970 on, as the property states", "date order is also checked in processes started with TZ=<zone> (16 zones quick, every zone thorough); days with no instant in the zone are skipped"},
+		Assumptions: []string{hookAssumption, "DateTime.Before is judged for instants from 1970 on, and for date-times before 1970 that carry no fraction of a second (the library truncates milliseconds toward zero)", "date order is also checked in processes started with TZ=<zone> (16 zones quick, every zone thorough); days with no instant in the zone are skipped"},
 		Plan: func(tier string) []Batch {
 			b := same(n(tier, 8, 16), Batch{Timeout: 30 * time.Minute})
 			return append(b, zoneBatches(n(tier, 16, 0), "tz", 20*time.Minute)...)
@@ -175,7 +175,7 @@ func init() {
 
 func init() {
 	specs["C06"] = &Spec{ID: "C06", Level: "exploration", Parallel: 6,
-		Assumptions: []string{loopAssumption, hookAssumption + " (decides the unset default 255.255.255.255:60000, which nobody can listen on here)", "controllers are told apart by unique serial numbers; each worker goroutine owns its farm and runs its cases one at a time"},
+		Assumptions: []string{loopAssumption, hookAssumption, "a private network segment in a network namespace (unshare -n) stands in for a LAN with real limited broadcast; where that is not permitted the netns batches are skipped (listed under skipped_batches) and the hooked layer alone decides the unset default 255.255.255.255:60000", "arrivals are attributed to calls by content (the reference encodings of the last 64 requests of a worker): the farm's log is not ordered with the cases", "controllers are told apart by unique serial numbers; each worker goroutine owns its farm and runs its cases one at a time"},
 		Plan: func(tier string) []Batch {
 			b := same(n(tier, 2, 8), Batch{Mode: "hook", Timeout: 20 * time.Minute})
 			b = append(b, same(n(tier, 2, 6), Batch{Mode: "loopback", Timeout: 30 * time.Minute, Procs: 8})...)
@@ -185,7 +185,7 @@ func init() {
 
 func init() {
 	specs["C08"] = &Spec{ID: "C08", Level: "exploration", Parallel: 4,
-		Assumptions: []string{loopAssumption, "the race detector reports only accesses that executed (happens-before based): silence means no race on the calls and interleavings listed here", "a call is judged only when the farm measurably sent its reply within 0.85 T of receiving the request (planned delays <= 0.7 T)", "TCP from a fixed bind port is left out (a 4-tuple cannot be reused within TIME_WAIT - kernel behaviour, not the library's)", "schedules are perturbed (GOMAXPROCS 2/4/16, adversarial reply delays), not enumerated"},
+		Assumptions: []string{loopAssumption, "the race detector reports only accesses that executed (happens-before based): silence means no race on the calls and interleavings listed here", "a call is judged only when the farm measurably sent its reply within 0.85 T of receiving the request (planned delays <= 0.7 T)", "successful TCP calls from a fixed bind port are left out of the plans (a 4-tuple cannot be reused within TIME_WAIT - kernel behaviour, not the library's); a refused TCP controller is included", "schedules are perturbed (GOMAXPROCS 2/4/16, adversarial reply delays), not enumerated"},
 		Plan: func(tier string) []Batch {
 			if tier == "thorough" {
 				return []Batch{{Mode: "race", Race: true, Procs: 2, Timeout: 40 * time.Minute}, {Mode: "race", Race: true, Procs: 4, Timeout: 40 * time.Minute}, {Mode: "race", Race: true, Procs: 16, Timeout: 40 * time.Minute},
@@ -197,7 +197,7 @@ func init() {
 
 func init() {
 	specs["C09"] = &Spec{ID: "C09", Level: "fault_enumeration", Parallel: 3,
-		Assumptions: []string{loopAssumption, "time is the property: verdicts use measured times with 1.5 s of scheduling slack on the late side and 7% on the early side; an in-time reply creates an obligation only if the farm measurably sent it within 0.8 T of receiving the request; in the parallel leak batches a failed must-succeed call is confirmed by a second attempt", "library sockets are recognised by their local address (clients bind 127.0.0.2, listeners 127.0.0.3; the farm lives on 127.0.0.1)", "SYN black holes cannot be produced on loopback without privileges: the dial path is driven by refused / reset / stalled peers and unreachable networks"},
+		Assumptions: []string{loopAssumption, "time is the property: verdicts use measured times with 1.5 s of scheduling slack on the late side and 7% on the early side; an in-time reply creates an obligation only if the farm measurably sent it within 0.8 T of receiving the request; in the parallel leak batches a failed must-succeed call is confirmed by a second attempt", "library sockets are recognised by their local address (clients bind 127.0.0.2, listeners 127.0.0.3; the farm lives on 127.0.0.1)", "SYN black holes and ARP failure are produced in a network namespace (unshare -n, veth pair with a static neighbour entry); where that is not permitted the netns batch is skipped and listed under skipped_batches", "timing verdicts about a call during which a 2 ms heartbeat overslept by more than 25 ms (host stall) are inconclusive"},
 		Plan: func(tier string) []Batch {
 			if tier == "thorough" {
 				return []Batch{{Mode: "plain", Procs: 8, Timeout: 60 * time.Minute}, {Mode: "plain", Procs: 8, Timeout: 60 * time.Minute}, {Mode: "race", Race: true, Procs: 8, Timeout: 60 * time.Minute}, {Mode: "plain", Procs: 2, Timeout: 60 * time.Minute},
